@@ -88,13 +88,19 @@ fn gen_case(rng: &mut Rng, idx: u64) -> Case {
             }
             let walks = if rng.chance(1, 4) { 0 } else { rng.range(1, 5) };
             let scale = if huge {
-                1u64 << rng.range(58, 62)
+                1u64 << rng.range(54, 59)
             } else if rng.chance(1, 10) {
                 rng.range(1, 1 << 33)
             } else {
                 1
             };
-            let flow = gen_flow(rng, &fns[i], walks, scale);
+            let mut flow = gen_flow(rng, &fns[i], walks, scale);
+            if huge && rng.chance(1, 2) {
+                // counters near the top of u64 (no longer a flow): sums overflow
+                for v in flow.iter_mut() {
+                    *v = *rng.pick(&[1u64 << 62, 1 << 63, u64::MAX, (1 << 63) - 1, 0, 1]);
+                }
+            }
             per_fn[i] = Some(flow.clone());
             parts.push((&fns[i], flow));
         }
@@ -110,8 +116,8 @@ fn gen_case(rng: &mut Rng, idx: u64) -> Case {
     // mismatching members
     let nbad = if rng.chance(1, 2) { rng.range(1, 2) } else { 0 };
     for _ in 0..nbad {
-        let mut d = if !pool.is_empty() && rng.chance(3, 4) {
-            pool[rng.below(pool.len() as u64) as usize].clone()
+        let mut d = if npool > 0 && rng.chance(3, 4) {
+            pool[rng.below(npool as u64) as usize].clone()
         } else {
             let parts: Vec<(&GenFn, Vec<u64>)> =
                 fns.iter().map(|f| (f, vec![1; f.arcs.len()])).collect();
@@ -171,6 +177,11 @@ fn gen_case(rng: &mut Rng, idx: u64) -> Case {
             pool.push(d);
             flows.push(vec![None; fns.len()]);
             bad.push(true);
+        }
+    }
+    if huge {
+        for f in fns.iter_mut() {
+            f.tree_ok = false; // no flow knowledge for the executed-iff-entered oracle
         }
     }
     let mut enc_rng = rng.fork();
